@@ -57,7 +57,8 @@ where
         // the accumulator holds up to a.size() + b_size limbs (cnv_offset_hi = 0)
         let res_size: usize = ((res.size() * res_base2k).div_ceil(a_base2k)).max(a.size() + b_size);
         let lvl_0: usize = self.bytes_of_vec_znx_big(1, res_size);
-        let lvl_1_cnv: usize = self.cnv_by_const_apply_tmp_bytes(res_size, cnv_offset, a.size(), b_size);
+        // Convolution::cnv_by_const_apply_tmp_bytes(cnv_offset, res_size, a_size, b_size)
+        let lvl_1_cnv: usize = self.cnv_by_const_apply_tmp_bytes(cnv_offset, res_size, a.size(), b_size);
         let lvl_1_norm: usize = self.vec_znx_big_normalize_tmp_bytes();
         let lvl_1: usize = lvl_1_cnv.max(lvl_1_norm);
 
@@ -173,9 +174,10 @@ where
             .cnv_prepare_left_tmp_bytes(a_size, a_size)
             .max(self.cnv_prepare_right_tmp_bytes(b_size, b_size));
 
-        let res_dft_size =
-            normalize_input_limb_bound_worst_case(a_size + b_size, res.size(), res.base2k().as_usize(), ab_base2k.as_usize());
-        let lvl_2_cnv_apply: usize = self.cnv_apply_dft_tmp_bytes(res_dft_size, cnv_offset, a_size, b_size);
+        // glwe_mul_plain(_assign) takes a.size() + b.size() - cnv_offset_hi limbs, whatever the size of the result
+        let res_dft_size = a_size + b_size;
+        // Convolution::cnv_apply_dft_tmp_bytes(cnv_offset, res_size, a_size, b_size)
+        let lvl_2_cnv_apply: usize = self.cnv_apply_dft_tmp_bytes(cnv_offset, res_dft_size, a_size, b_size);
 
         let lvl_2_res_dft: usize = self.bytes_of_vec_znx_dft(1, res_dft_size);
         let lvl_2_norm: usize = self.vec_znx_big_normalize_tmp_bytes();
@@ -453,10 +455,14 @@ where
         let lvl_1: usize = self.cnv_prepare_self_tmp_bytes(a_size, a_size);
         let diag_dft_size =
             normalize_input_limb_bound_worst_case(2 * a_size, res_size, res.base2k().as_usize(), a.base2k().as_usize());
-        let lvl_2_apply: usize = self.cnv_apply_dft_tmp_bytes(diag_dft_size, cnv_offset, a_size, a_size);
+        // Convolution::cnv_apply_dft_tmp_bytes(cnv_offset, res_size, a_size, b_size)
+        let lvl_2_apply: usize = self.cnv_apply_dft_tmp_bytes(cnv_offset, diag_dft_size, a_size, a_size);
         let pairwise_dft_size =
             normalize_input_limb_bound_worst_case(2 * a_size, res_size, res.base2k().as_usize(), a.base2k().as_usize());
-        let lvl_2_pairwise: usize = self.cnv_pairwise_apply_dft_tmp_bytes(cnv_offset, pairwise_dft_size, a_size, a_size);
+        // the HAL delegate of this query forwards its first two arguments swapped: size for both readings
+        let lvl_2_pairwise: usize = self
+            .cnv_pairwise_apply_dft_tmp_bytes(cnv_offset, pairwise_dft_size, a_size, a_size)
+            .max(self.cnv_pairwise_apply_dft_tmp_bytes(pairwise_dft_size, cnv_offset, a_size, a_size));
 
         let lvl_2a: usize = self.bytes_of_vec_znx_dft(1, diag_dft_size) + lvl_2_apply.max(self.vec_znx_big_normalize_tmp_bytes());
         let lvl_2b: usize =
@@ -492,10 +498,14 @@ where
             .max(self.cnv_prepare_right_tmp_bytes(b_size, b_size));
         let diag_dft_size =
             normalize_input_limb_bound_worst_case(a_size + b_size, res_size, res.base2k().as_usize(), ab_base2k.as_usize());
-        let lvl_2_apply: usize = self.cnv_apply_dft_tmp_bytes(diag_dft_size, cnv_offset, a_size, b_size);
+        // Convolution::cnv_apply_dft_tmp_bytes(cnv_offset, res_size, a_size, b_size)
+        let lvl_2_apply: usize = self.cnv_apply_dft_tmp_bytes(cnv_offset, diag_dft_size, a_size, b_size);
         let pairwise_dft_size =
             normalize_input_limb_bound_worst_case(a_size + b_size, res_size, res.base2k().as_usize(), ab_base2k.as_usize());
-        let lvl_2_pairwise: usize = self.cnv_pairwise_apply_dft_tmp_bytes(cnv_offset, pairwise_dft_size, a_size, b_size);
+        // the HAL delegate of this query forwards its first two arguments swapped: size for both readings
+        let lvl_2_pairwise: usize = self
+            .cnv_pairwise_apply_dft_tmp_bytes(cnv_offset, pairwise_dft_size, a_size, b_size)
+            .max(self.cnv_pairwise_apply_dft_tmp_bytes(pairwise_dft_size, cnv_offset, a_size, b_size));
 
         let lvl_2a: usize = self.bytes_of_vec_znx_dft(1, diag_dft_size)
             + lvl_2_apply.max(VecZnx::bytes_of(self.n(), 1, res_size) + self.vec_znx_big_normalize_tmp_bytes());
